@@ -2,6 +2,7 @@
 from ..common import Ctx, Failure, Result
 from .. import memrun
 from . import _mem, _redis
+from . import _rabbit
 
 S = memrun.S
 RULE = ("histories with ONE normal consumer per queue (with or without a topic filter; delayed- and dead-category consumers "
@@ -128,6 +129,7 @@ def run(ctx: Ctx) -> Result:
                 seen.add(kind)
                 res.failures.append(Failure(kind, what, {"history": _mem.strip(h), "where": where}, None))
     _redis.run_seq(ctx, res, "c15r", {"C15"}, "fifo", 150, 3000, rng)
+    _rabbit.run_seq(ctx, res, "c15q", {"C15"}, "fifo", 120, 2500, rng, fifo=True)
     return res
 
 
